@@ -14,11 +14,26 @@ def inferredErrorFlag : String := "outputID == \"error\""
 
 /-- The only places where the process working directory can enter a result:
     * `NewFileCacheUsingContext` makes the context directory absolute (once, when the cache is created);
+    * `sameDirectory` (used by `MergeFileCaches` since the fix of finding F15) makes both root directories absolute when
+      their spellings differ: the working directory matters only for the meaning of a RELATIVE root directory, which is
+      "relative to the working directory" by intent (`Env.abs` in the model; `cwd_independent`);
     * the built-in `readFile` resolves its argument against the working directory — finding F14: a relative path in a
       workflow is not resolved against the context directory. -/
 def cwdCallSites : List (String × String × String × String) := [
   ("loadfile/loadfile.go", "NewFileCacheUsingContext", "filepath.Abs", "rootDir"),
+  ("loadfile/loadfile.go", "sameDirectory", "filepath.Abs", "dir1"),
+  ("loadfile/loadfile.go", "sameDirectory", "filepath.Abs", "dir2"),
   ("internal/builtinfunctions/functions.go", "getReadFileFunction", "filepath.Abs", "filePath")]
+
+/-- `sameDirectory(dir1, dir2)`: equal strings, or equal `filepath.Abs` of both (model: `sameDirectory abs`) -/
+def sameDirectoryBody : List String := [
+  "if dir1 == dir2 { return true }",
+  "abs1, err1 := filepath.Abs(dir1)",
+  "abs2, err2 := filepath.Abs(dir2)",
+  "return err1 == nil && err2 == nil && abs1 == abs2"]
+
+/-- `MergeFileCaches` rejects a cache when the accumulated root is non-empty and not the same directory (model: `mergeStep`) -/
+def mergeRejectCondition : String := "rootDir != \"\" && !sameDirectory(rootDir, fc.RootDir())"
 
 def exitCodes : List (String × Nat) :=
   [("ExitCodeInvalidData", 1), ("ExitCodeOK", 0), ("ExitCodeWorkflowErrorOutput", 2), ("ExitCodeWorkflowFailed", 3)]
